@@ -111,9 +111,14 @@ def r1_close_order(ctx):
     rets = cl.returns()
     ok = bool(rets) and all(any(after_await(cl, aw, r) for aw in jaw) for r in rets)
     ctx.check(R, "returns-only-after-join", ok, "every return of close() follows the Ready edge of a join await: %s" % ok, cl)
+    # close()'s value is the join result: either the awaited value itself, or an Ok / Err rebuilt on the matching side of a
+    # test of that value (`match self.join_future.await { Ok(()) => Ok(()), Err(e) => Err(e) }`)
     r0 = cl.slice({"l": 0, "p": []})
-    ok = any(r0.touches_local(aw["dest"]) for aw in jaw) and not [a for a in r0.atoms if a[0] == "agg"]
-    ctx.check(R, "returns-the-join-result", ok, "close()'s value is the payload of the join await: %s" % ok, cl)
+    splits = [sp for aw in jaw for l in await_payloads(cl, aw) for sp in [result_split(cl, l)] if sp is not None]
+    rebuilt = [(b, tag) for b, tag in return_defs(cl) if tag not in ("value", "residual")]
+    stray = sorted(set(tag for b, tag in rebuilt if not any(cl.edge_dominates(sp["switch_bb"], sp["ok" if tag == "Ok" else "err"], b) and sp["ok"] != sp["err"] for sp in splits if tag in ("Ok", "Err"))))
+    ok = any(r0.touches_local(aw["dest"]) for aw in jaw) and not stray
+    ctx.check(R, "returns-the-join-result", ok, "close()'s value is the payload of the join await (results rebuilt on the matching side of a test of it: %d; elsewhere: %s): %s" % (len(rebuilt) - len(stray), stray, ok), cl)
     # Drop for CloseHandle still signals (less clean shutdowns)
     dr = ctx.ds.one(r"^<server::CloseHandle as std::ops::Drop>::drop$")
     if dr is None:
@@ -201,7 +206,8 @@ def r3_join_waits(ctx):
     if j is None:
         return
     jc, jnode, jsl, site = j
-    ctx.check(R, "join-future-is-boxed-shared", jsl.has_call(r"FutureExt::shared$") and jsl.has_call(r"FutureExt::boxed$"), "join_future = <async block>.boxed().shared(): %s" % jsl.has_call(r"FutureExt::shared$"), site)
+    boxed = jsl.has_call(r"FutureExt::boxed$|boxed::Box::<T>::pin$")
+    ctx.check(R, "join-future-is-boxed-shared", jsl.has_call(r"FutureExt::shared$") and boxed, "join_future = <join future>.boxed() / Box::pin(..) (%s) .shared() (%s)" % (boxed, jsl.has_call(r"FutureExt::shared$")), site)
     jh = [a for a in awaits(jc, fut_type_rx=r"task::JoinHandle")]
     jh = [a for a in jh if any(slice_has_call_at(st.slice(o), spbb) for o in _upvar_ops(st, jnode, jc, jc.slice(a["term"]["args"][0])))]
     if len(jh) != 1 or jh[0]["ready"] is None:
@@ -378,6 +384,21 @@ SELFTEST = [
                (_S, "            graceful.shutdown().await\n", "            debug!(log, \"waiting for connections to finish\");\n            graceful.shutdown().await\n")]},
     {"name": "join-awaits-bound-futures", "kind": "benign", "why": "behaviour-preserving: the wait future is bound to a local before being awaited; Ok built through a local",
      "edits": [(_S, "            () = handler_waitgroup.wait().await;\n            Ok(())", "            let all_handlers_done = handler_waitgroup.wait();\n            all_handlers_done.await;\n            let res = Ok(());\n            res")]},
+    {"name": "join-error-by-match-and-box-pin", "kind": "benign", "why": "behaviour-preserving: `.map_err(..)?` on the server task's result written as a match with `return Err(..)`; the join future pinned with Box::pin instead of .boxed()",
+     "edits": [(_S, "            () = join_handle\n                .await\n                .map_err(|e| format!(\"server stopped: {e}\"))?;", "            match join_handle.await {\n                Ok(()) => {}\n                Err(join_error) => {\n                    return Err(format!(\"server stopped: {join_error}\"));\n                }\n            }"),
+               (_S, "            join_future: join_handle.boxed().shared(),", "            join_future: {\n                let pinned: BoxFuture<'static, Result<(), String>> = Box::pin(join_handle);\n                pinned.shared()\n            },")]},
+    {"name": "join-future-is-an-async-fn", "kind": "benign", "why": "behaviour-preserving: the join future is a private `async fn` (defined after its user) called with the JoinHandle and the WaitGroup, instead of an inline async block",
+     "edits": [(_S, "        let join_handle = async move {\n            // After the server shuts down, we also want to wait for any\n            // detached handler futures to complete.\n            () = join_handle\n                .await\n                .map_err(|e| format!(\"server stopped: {e}\"))?;\n            () = handler_waitgroup.wait().await;\n            Ok(())\n        };",
+                "        let join_handle = server_and_handlers_done(join_handle, handler_waitgroup);"),
+               (_S, "/// Accepts TCP connections like a `TcpListener`, but ignores transient errors", "async fn server_and_handlers_done(\n    server_task: tokio::task::JoinHandle<()>,\n    handler_waitgroup: WaitGroup,\n) -> Result<(), String> {\n    if let Err(e) = server_task.await {\n        return Err(format!(\"server stopped: {e}\"));\n    }\n    handler_waitgroup.wait().await;\n    Ok(())\n}\n\n/// Accepts TCP connections like a `TcpListener`, but ignores transient errors")]},
+    {"name": "join-early-error-not-from-server-task", "kind": "mutant", "why": "the shared shutdown result can be an error although the server task ended cleanly, and is produced before detached handlers were waited for",
+     "edits": [(_S, "            () = handler_waitgroup.wait().await;\n            Ok(())", "            if std::env::var_os(\"DROPSHOT_FAST_SHUTDOWN\").is_some() {\n                return Err(String::from(\"not waiting for handlers\"));\n            }\n            () = handler_waitgroup.wait().await;\n            Ok(())")],
+     "expect": ["C17.R3"]},
+    {"name": "close-rebuilds-join-result", "kind": "benign", "why": "behaviour-preserving: close() matches on the join result and rebuilds Ok / Err on the corresponding arm",
+     "edits": [(_S, "        mem::drop(self.app_state);\n\n        self.join_future.await\n", "        mem::drop(self.app_state);\n\n        match self.join_future.await {\n            Ok(()) => Ok(()),\n            Err(message) => Err(message),\n        }\n")]},
+    {"name": "close-swallows-join-error", "kind": "mutant", "why": "close() reports success although the server task failed",
+     "edits": [(_S, "        mem::drop(self.app_state);\n\n        self.join_future.await\n", "        mem::drop(self.app_state);\n\n        match self.join_future.await {\n            Ok(()) => Ok(()),\n            Err(_message) => Ok(()),\n        }\n")],
+     "expect": ["C17.R1"]},
     {"name": "close-signal-via-local", "kind": "benign", "why": "behaviour-preserving: the sender is taken into a local first",
      "edits": [(_S, "        self.closer\n            .close_channel\n            .take()\n            .expect(\"cannot close twice\")\n            .send(())\n            .expect(\"failed to send close signal\");", "        let sender = self.closer.close_channel.take().expect(\"cannot close twice\");\n        let sent = sender.send(());\n        sent.expect(\"failed to send close signal\");")]},
 ]
